@@ -35,6 +35,9 @@ pub struct Case {
     pub conn: u8,
     /// None, absolute or percent
     pub corner_offset: Option<EdgeOff>,
+    /// (conn 1 / 2) the connector is written as a `<polyline>`: the edge type decides what it becomes, not the element name
+    #[serde(default)]
+    pub as_polyline: bool,
 }
 
 fn shape_xml(id: &str, kind: u8, b: &[f64; 4]) -> Vec<XEl> {
@@ -86,7 +89,7 @@ fn end_txt(id: &str, e: &EndSpec) -> String {
 pub fn case_xml(c: &Case) -> String {
     let mut els = shape_xml("a", c.kind_a, &c.a);
     els.extend(shape_xml("b", c.kind_b, &c.b));
-    let mut e = XEl::new(if c.conn == 3 { "polyline" } else { "line" }).a("id", "conn");
+    let mut e = XEl::new(if c.conn == 3 || (c.as_polyline && matches!(c.conn, 1 | 2)) { "polyline" } else { "line" }).a("id", "conn");
     e.set("start", end_txt("a", &c.start));
     e.set("end", end_txt("b", &c.end));
     match c.conn {
@@ -184,7 +187,7 @@ fn fam_connectors(_t: Tier) -> BoxedStrategy<Case> {
                 6 => Some(EdgeOff::Abs(-2.0)),
                 _ => Some(EdgeOff::Ratio([0.25, 0.5, 0.75][(off / 7) as usize % 3])),
             };
-            Case { kind_a, kind_b, a, b, start, end, conn, corner_offset }
+            Case { kind_a, kind_b, a, b, start, end, conn, corner_offset, as_polyline: matches!(conn, 1 | 2) && off % 3 == 0 }
         })
         .boxed()
 }
@@ -197,7 +200,7 @@ fn direction_table() -> Vec<Case> {
         for s in gen::EDGES {
             for e in gen::EDGES {
                 for off in [None, Some(EdgeOff::Abs(2.0)), Some(EdgeOff::Ratio(0.25))] {
-                    v.push(Case { kind_a: 0, kind_b: 0, a, b: [bx, by, 8.0, 5.0], start: EndSpec::Loc(s.to_string()), end: EndSpec::Loc(e.to_string()), conn: 3, corner_offset: off });
+                    v.push(Case { kind_a: 0, kind_b: 0, a, b: [bx, by, 8.0, 5.0], start: EndSpec::Loc(s.to_string()), end: EndSpec::Loc(e.to_string()), conn: 3, corner_offset: off, as_polyline: false });
                 }
             }
         }
